@@ -692,6 +692,7 @@ func main() {
 	fmt.Fprintf(&b, "  providesSorted := %s,\n  depsSorted := %s,\n  outputNamesSorted := %s,\n  buildInputsSorted := %s,\n  namedSrcsSorted := %s }\n",
 		xlib.LeanBool(*x.providesSorted), xlib.LeanBool(depsSorted), xlib.LeanBool(namesSorted), xlib.LeanBool(inputsSorted), xlib.LeanBool(*x.namedSrcsSorted))
 	fmt.Fprintf(&b, "def hashAlgo : String := %s\n", xlib.LeanStr(algo))
+	fmt.Fprintf(&b, "def earlyRuleHashCalls : List String := %s\n", xlib.LeanStrList(earlyRuleHashCalls()))
 	write("C08", "import PlzVerif.Model.RuleHash", "open PlzVerif.RuleHash", incr.Path+", src/core/build_target.go", b.String())
 }
 
@@ -711,4 +712,149 @@ func write(name, imports, opens, sources, body string) {
 	if err := os.WriteFile(p, []byte(s), 0o644); err != nil {
 		panic(err)
 	}
+}
+
+// earlyRuleHashCalls: RuleHash memoises the pre-build rule hash in target.RuleHash on its first non-runtime call and
+// nothing resets it, so the first such call must come AFTER the target's pre-build function has run (set_command,
+// add_out, add_dep … change what is hashed).  This lists every call, in Build() before buildTarget() and in
+// buildTarget() up to the RunPreBuildFunction call, of a function of package build that (transitively) reaches a
+// memoising RuleHash call — call ARGUMENTS (e.g. of log statements) included, deferred closures excluded.
+func earlyRuleHashCalls() []string {
+	files, _ := filepath.Glob(filepath.Join(xlib.Repo(), "src/build/*.go"))
+	funcs := map[string]*ast.FuncDecl{}
+	var step *xlib.File
+	for _, p := range files {
+		if strings.HasSuffix(p, "_test.go") || strings.HasSuffix(p, "_verif.go") || strings.HasSuffix(p, "_noverif.go") {
+			continue
+		}
+		rel, _ := filepath.Rel(xlib.Repo(), p)
+		pf := xlib.Parse(rel)
+		if filepath.Base(p) == "build_step.go" {
+			step = pf
+		}
+		for _, d := range pf.AST.Decls {
+			if fd, ok := d.(*ast.FuncDecl); ok && fd.Recv == nil && fd.Body != nil {
+				funcs[fd.Name.Name] = fd
+			}
+		}
+	}
+	if step == nil || funcs["Build"] == nil || funcs["buildTarget"] == nil || funcs["RuleHash"] == nil {
+		xlib.Unreadable("src/build: Build / buildTarget / RuleHash not found")
+	}
+	calleeName := func(c *ast.CallExpr) string {
+		switch f := c.Fun.(type) {
+		case *ast.Ident:
+			return f.Name
+		case *ast.SelectorExpr:
+			if id, ok := f.X.(*ast.Ident); ok && id.Name == "build" {
+				return f.Sel.Name
+			}
+		}
+		return ""
+	}
+	// memo: functions that can memoise target.RuleHash
+	memo := map[string]bool{}
+	directly := func(n ast.Node) bool {
+		hit := false
+		ast.Inspect(n, func(x ast.Node) bool {
+			if c, ok := x.(*ast.CallExpr); ok && calleeName(c) == "RuleHash" && len(c.Args) == 4 {
+				if id, ok := c.Args[2].(*ast.Ident); !ok || id.Name != "true" { // runtime hashes are never memoised
+					hit = true
+				}
+			}
+			return !hit
+		})
+		return hit
+	}
+	for name, fd := range funcs {
+		if name != "RuleHash" && directly(fd.Body) {
+			memo[name] = true
+		}
+	}
+	memo["RuleHash"] = true
+	for changed := true; changed; {
+		changed = false
+		for name, fd := range funcs {
+			if memo[name] {
+				continue
+			}
+			ast.Inspect(fd.Body, func(x ast.Node) bool {
+				if c, ok := x.(*ast.CallExpr); ok && memo[calleeName(c)] && calleeName(c) != "RuleHash" {
+					memo[name], changed = true, true
+				}
+				return !memo[name]
+			})
+		}
+	}
+	var out []string
+	scan := func(where string, n ast.Node) {
+		ast.Inspect(n, func(x ast.Node) bool {
+			switch y := x.(type) {
+			case *ast.DeferStmt, *ast.FuncLit:
+				return false // runs later
+			case *ast.CallExpr:
+				name := calleeName(y)
+				if name == "RuleHash" && len(y.Args) == 4 {
+					if id, ok := y.Args[2].(*ast.Ident); ok && id.Name == "true" {
+						return true
+					}
+				}
+				if memo[name] {
+					out = append(out, where+": "+step.Src(y))
+				}
+			}
+			return true
+		})
+	}
+	contains := func(n ast.Node, fn string) bool {
+		hit := false
+		ast.Inspect(n, func(x ast.Node) bool {
+			if c, ok := x.(*ast.CallExpr); ok {
+				if calleeName(c) == fn {
+					hit = true
+				}
+				if sel, ok := c.Fun.(*ast.SelectorExpr); ok && sel.Sel.Name == fn {
+					hit = true
+				}
+			}
+			return !hit
+		})
+		return hit
+	}
+	// Build(): everything before the statement that calls buildTarget
+	found := false
+	for _, st := range funcs["Build"].Body.List {
+		if contains(st, "buildTarget") {
+			found = true
+			break
+		}
+		scan("Build", st)
+	}
+	if !found {
+		xlib.Unreadable("Build: call of buildTarget not found")
+	}
+	// buildTarget(): everything up to the RunPreBuildFunction call
+	found = false
+	for _, st := range funcs["buildTarget"].Body.List {
+		if contains(st, "RunPreBuildFunction") {
+			is, ok := st.(*ast.IfStmt)
+			if !ok {
+				xlib.Unreadable("buildTarget: the pre-build call is not inside an if statement")
+			}
+			scan("buildTarget", is.Cond)
+			for _, inner := range is.Body.List {
+				if contains(inner, "RunPreBuildFunction") {
+					break
+				}
+				scan("buildTarget", inner)
+			}
+			found = true
+			break
+		}
+		scan("buildTarget", st)
+	}
+	if !found {
+		xlib.Unreadable("buildTarget: RunPreBuildFunction call not found")
+	}
+	return out
 }
